@@ -33,6 +33,24 @@ pub fn span_file_line(tcx: TyCtxt<'_>, sp: Span) -> (String, i128, i128) {
     (name, lo.line as i128, hi.line as i128)
 }
 
+/// names of the macros whose expansion produced this span, innermost first
+pub fn mac_chain(sp: Span) -> Vec<String> {
+    let mut out = Vec::new();
+    let mut sp = sp;
+    let mut n = 0;
+    while sp.from_expansion() && n < 8 {
+        let ed = sp.ctxt().outer_expn_data();
+        match ed.kind {
+            rustc_span::ExpnKind::Macro(_, name) => out.push(name.to_string()),
+            rustc_span::ExpnKind::Desugaring(d) => out.push(format!("desugar:{:?}", d)),
+            _ => {}
+        }
+        sp = ed.call_site;
+        n += 1;
+    }
+    out
+}
+
 pub fn line_of(tcx: TyCtxt<'_>, sp: Span) -> i128 {
     let sm = tcx.sess.source_map();
     sm.lookup_char_pos(sp.source_callsite().lo()).line as i128
@@ -373,7 +391,7 @@ impl<'a, 'tcx> Enc<'a, 'tcx> {
                     let f = self.callee(func);
                     let a: Vec<J> = args.iter().map(|x| self.operand(&x.node)).collect();
                     let _ = fn_span;
-                    J::Arr(vec![
+                    let mut v = vec![
                         s("call"),
                         f,
                         J::Arr(a),
@@ -382,7 +400,11 @@ impl<'a, 'tcx> Enc<'a, 'tcx> {
                         Self::unwind(unwind),
                         J::Int(line),
                         J::Bool(exp),
-                    ])
+                    ];
+                    if exp {
+                        v.push(J::Arr(mac_chain(term.source_info.span).into_iter().map(s).collect()));
+                    }
+                    J::Arr(v)
                 }
                 TerminatorKind::TailCall { func, args, .. } => {
                     let f = self.callee(func);
